@@ -11,8 +11,10 @@
 //! for absent levels, inserts at front / middle / back; `Snapshot` events with any subset of the
 //! prices at non-zero amounts in unsorted order (well-formed snapshots only: distinct prices, positive
 //! amounts); sequence numbers from a 3-value set so that the sequence goes down, stays and goes up.
-//! A second model uses price/amount literals of different decimal scale (1, 1.0, 1.00) which must be
-//! the same level.
+//! Model "scales" uses price/amount literals of different decimal scale (1, 1.0, 1.00) which must be
+//! the same level; model "cross" has OVERLAPPING bid / ask price ranges (crossed and locked books: the two
+//! sides are independent maps) and the sequence numbers 0, 2 and u64::MAX; model "fine" has prices that
+//! differ only in the 12th decimal place next to a 10^7 price and an amount of 10^-12 (not zero).
 //!
 //! When a transition violates a rule the search reports it (signature = rule + abstract cause) and continues
 //! from the REFERENCE state (a well-formed book holding the map), so the explored space stays finite under
@@ -26,12 +28,20 @@
 //! `Reconnecting` notices: every delivery sequence of length <= d. After every delivery the book of each
 //! configured instrument must equal the real `OrderBook` folded directly over ITS OWN events (book
 //! semantics are layer 1's business), i.e. each event lands in the book of its instrument only, and `run`
-//! must not end while its stream is open.
+//! must not end while its stream is open. The same with an `OrderBookMapSingle` (one configured instrument,
+//! two foreign keys; signatures `C05/manager-single/..`). Every sequence of >= 2 deliveries is also handed
+//! over as a BURST (all queued before the manager is first polled): the books must be the same fold.
 //!
 //! Layer 3: configuration sweep over LONG updates (2..=40 levels on one side, thorough up to 100; one price
 //! listed twice at every pair of positions, three filler orders, with / without the level pre-existing) —
 //! `OrderBook::new` sorts the level list with `sort_unstable_by`, which keeps equal prices in list order
 //! only for short lists; the statement quantifies over "duplicates of a price within one update".
+//!
+//! Layer 4: BIG books - for every length n in 1..=1100 (thorough 5200) and each side a snapshot of n levels and
+//! one update touching the far end, the front, the middle and an absent price (a map has no maximum depth).
+//!
+//! Layer 5: reader contention - a reader of the shared book holds it while the manager is handed an event for
+//! it (second thread, deterministic barrier): after the reader has left the book is the event applied.
 //!
 //! Oracle rules (each from a sentence of the statement):
 //!  R-levels    "holds exactly the price levels a price-to-amount map would hold (zero deletes, any other
@@ -43,7 +53,8 @@
 //!  R-vwmp      "volume-weighted mid-price" of the map's best levels (either weighting convention accepted:
 //!              micro-price (pb*qa+pa*qb)/(qa+qb) or (pb*qb+pa*qa)/(qa+qb); it must come from the BEST levels)
 //!  R-snapshot  "depth-limited snapshots are those of that map": snapshot(d) == first d levels per side, same
-//!              sequence, for d in 0..=5
+//!              sequence, for d in 0..=5, around the length of the longer side (half, -1, exact, +1) and
+//!              usize::MAX; a panic of snapshot(d) is a violation
 //! `time_engine` is varied in the inputs but never judged (the statement does not mention it).
 
 use crate::core::{Ctx, Distinct, Outcome, Samples, hash_of};
@@ -56,7 +67,7 @@ use barter_data::{
     books::{
         Level, OrderBook,
         manager::OrderBookL2Manager,
-        map::{OrderBookMap, OrderBookMapMulti},
+        map::{OrderBookMapMulti, OrderBookMapSingle},
     },
     event::MarketEvent,
     streams::{consumer::MarketStreamEvent, reconnect::Event},
@@ -134,6 +145,13 @@ pub struct M {
 
 fn d(s: &str) -> Decimal {
     Decimal::from_str(s).unwrap()
+}
+
+/// Sequence number carried by an event with sequence symbol `s`: the symbol itself, except that 255
+/// stands for `u64::MAX` (a value class beyond 32 bits). Symbol 0 is the number 0, which is also the
+/// sequence of `OrderBook::default()` - "the sequence of the last applied event" all the same.
+fn seq_of(s: u8) -> u64 {
+    if s == 255 { u64::MAX } else { s as u64 }
 }
 
 fn time_of(seq: u8) -> Option<DateTime<Utc>> {
@@ -254,6 +272,20 @@ impl M {
             "p4" => M::new(&["1", "2", "3", "4"], &["5", "6", "7", "8"], &["0", "5", "7"], &[1, 2, 3], 2, 3),
             // decimal scales: 1 / 1.0 / 1.00 are one level; 0 / 0.00 both delete; books may cross (2 on both sides)
             "scales" => M::new(&["1", "1.0", "1.00", "2"], &["2.0", "3", "3.00"], &["0", "0.00", "5", "5.0", "7"], &[1, 2], 2, 2),
+            // overlapping price ranges: a bid above / equal to / below resting asks and vice versa (a map per
+            // side knows nothing of the other side: a crossed book keeps every level); sequence numbers 0
+            // (also the default book's), 2 and u64::MAX
+            "cross" => M::new(&["1", "3", "4"], &["2", "3", "5"], &["0", "5", "7"], &[0, 2, 255], 2, 2),
+            // prices that differ only in the 12th decimal place next to a 10^7 price, an amount of 10^-12
+            // (not zero: it sets the level)
+            "fine" => M::new(
+                &["0.1", "0.100000000001", "0.100000000002"],
+                &["0.100000000003", "0.2", "12345678.9"],
+                &["0", "0.000000000001", "7"],
+                &[1, 2],
+                2,
+                2,
+            ),
             other => panic!("C05: unknown model label {other}"),
         }
     }
@@ -265,7 +297,7 @@ impl M {
     /// The event exactly as a connector builds it: `OrderBook::new(seq, time, unsorted bids, unsorted asks)`.
     fn event(&self, a: &Act) -> OrderBookEvent {
         let book = OrderBook::new(
-            a.seq as u64,
+            seq_of(a.seq),
             time_of(a.seq),
             self.levels(&self.bid_px, a.bids()),
             self.levels(&self.ask_px, a.asks()),
@@ -280,7 +312,7 @@ impl M {
         format!(
             "{}(seq={}, bids=[{}], asks=[{}])",
             if a.snap { "Snapshot" } else { "Update" },
-            a.seq,
+            seq_of(a.seq),
             f(&self.bid_px, a.bids()),
             f(&self.ask_px, a.asks())
         )
@@ -316,10 +348,10 @@ fn has_dup_price(levels: &[Level]) -> bool {
 
 /// Compare one side of the real book with the map (already in the required order).
 fn side_cause(got: &[Level], want: &[(Decimal, Decimal)], descending: bool) -> Option<&'static str> {
-    let g: Vec<(Decimal, Decimal)> = got.iter().map(|l| (l.price, l.amount)).collect();
-    if g == want {
-        return None;
+    if got.len() == want.len() && got.iter().zip(want).all(|(l, w)| (l.price, l.amount) == *w) {
+        return None; // (the common case, without allocating)
     }
+    let g: Vec<(Decimal, Decimal)> = got.iter().map(|l| (l.price, l.amount)).collect();
     let mut seen = HashSet::new();
     if !g.iter().all(|(p, _)| seen.insert(*p)) {
         return Some("price-appears-twice");
@@ -402,13 +434,27 @@ fn check_book(kind: &str, _tag: &str, book: &OrderBook, wb: &PMap, wa: &PMap, wa
             format!("{} -> volume_weighed_mid_price={vw:?}, map allows {vw_ok:?} (best bid {bb:?}, best ask {ba:?})", ctx_txt()),
         ));
     }
-    // R-snapshot
-    for depth in 0..=5usize {
-        let s = book.snapshot(depth);
+    // R-snapshot: depths 0..=5, the length of the longer side, one more, and usize::MAX ("everything")
+    let longest = want_bids.len().max(want_asks.len());
+    let mut depths: Vec<usize> = (0..=5usize).collect();
+    for extra in [longest / 2, longest.saturating_sub(1), longest, longest + 1, usize::MAX] {
+        if !depths.contains(&extra) {
+            depths.push(extra);
+        }
+    }
+    for depth in depths {
+        let Ok(s) = std::panic::catch_unwind(std::panic::AssertUnwindSafe(|| book.snapshot(depth))) else {
+            let c = if depth == usize::MAX { "depth-usize-max" } else if depth > longest { "depth-beyond-book" } else { "depth-within-book" };
+            out.push((format!("C05/snapshot-depth/panic/{c}"), format!("{} -> snapshot({depth}) panicked", ctx_txt())));
+            continue;
+        };
         for (side, got, want) in [
             ("bids", s.bids().levels(), &want_bids),
             ("asks", s.asks().levels(), &want_asks),
         ] {
+            if got.len() == want.len().min(depth) && got.iter().zip(want.iter()).all(|(l, w)| (l.price, l.amount) == *w) {
+                continue; // (the common case, without allocating)
+            }
             let w: Vec<(Decimal, Decimal)> = want.iter().take(depth).cloned().collect();
             let g: Vec<(Decimal, Decimal)> = got.iter().map(|l| (l.price, l.amount)).collect();
             if g != w {
@@ -467,7 +513,7 @@ impl Model for M {
         let tag = "";
         let txt = || format!("book(seq={}, bids={:?}, asks={:?}) + {}", s.0.sequence, s.0.bids().levels(), s.0.asks().levels(), self.describe(a));
         let mut v = Vec::new();
-        if std::panic::catch_unwind(std::panic::AssertUnwindSafe(|| check_book(kind, tag, &book, &wb, &wa, a.seq as u64, &txt, &mut v))).is_err() {
+        if std::panic::catch_unwind(std::panic::AssertUnwindSafe(|| check_book(kind, tag, &book, &wb, &wa, seq_of(a.seq), &txt, &mut v))).is_err() {
             v.push((format!("C05/panic/observer-after-{kind}"), format!("an observer panicked: {}", txt())));
         }
         if v.is_empty() {
@@ -477,7 +523,7 @@ impl Model for M {
             // any defect and lets a second, different defect still be found
             out.extend(v);
             Some(St(OrderBook::new(
-                a.seq as u64,
+                seq_of(a.seq),
                 time_of(a.seq),
                 wb.iter().map(|(p, q)| Level::new(*p, *q)).collect::<Vec<_>>(),
                 wa.iter().map(|(p, q)| Level::new(*p, *q)).collect::<Vec<_>>(),
@@ -622,10 +668,19 @@ pub enum MSym {
 pub struct MgrModel {
     m: M,
     menu: Vec<Act>,
+    /// false: `OrderBookMapMulti` with instruments 0 and 1 configured; true: `OrderBookMapSingle` with
+    /// instrument 0 only (keys 1 and 2 are then both un-configured)
+    single: bool,
 }
+
+type Delivery = MarketStreamEvent<InstrumentIndex, OrderBookEvent>;
 
 impl MgrModel {
     fn new() -> Self {
+        Self::with_map(false)
+    }
+
+    fn with_map(single: bool) -> Self {
         let m = M::by_label("p3");
         let menu = vec![
             Act::new(true, 1, &[(0, 1), (2, 2)], &[(1, 1)]),          // snapshot, unsorted bids
@@ -634,32 +689,157 @@ impl MgrModel {
             Act::new(false, 3, &[(0, 2)], &[(0, 0), (1, 2)]),          // both sides
             Act::new(false, 1, &[(2, 0)], &[(2, 1), (2, 2)]),          // sequence goes down, price twice
         ];
-        Self { m, menu }
+        Self { m, menu, single }
+    }
+
+    /// number of configured instruments (keys 0..configured)
+    fn configured(&self) -> usize {
+        if self.single { 1 } else { 2 }
+    }
+
+    fn tag(&self) -> &'static str {
+        if self.single { "manager-single" } else { "manager" }
+    }
+
+    fn delivery(&self, s: &MSym) -> Delivery {
+        match s {
+            MSym::Reconnecting => Event::Reconnecting(ExchangeId::BinanceSpot),
+            // the envelope's timestamps go up AND down along a delivery sequence (venue clocks are not monotone
+            // across partitions; the statement is about the sequence of events, whatever their stamps), and the
+            // receive time runs against the exchange time
+            MSym::Item { inst, ev } => Event::Item(MarketEvent {
+                time_exchange: Utc.timestamp_opt(1_700_000_000 + [30, 10, 50, 20, 40][*ev as usize % 5] + *inst as i64, 0).unwrap(),
+                time_received: Utc.timestamp_opt(1_700_000_100 - [30, 10, 50, 20, 40][*ev as usize % 5], 0).unwrap(),
+                exchange: [ExchangeId::BinanceSpot, ExchangeId::Kraken, ExchangeId::Okx][*inst as usize % 3], // one venue per instrument
+                instrument: InstrumentIndex(*inst as usize),
+                kind: self.m.event(&self.menu[*ev as usize]),
+            }),
+        }
+    }
+
+    /// A fresh real manager over a harness-owned channel: (books the harness keeps a handle on, sender,
+    /// the `run` future). With the single map only book 0 is handed to the manager.
+    #[allow(clippy::type_complexity)]
+    fn manager(&self) -> (Vec<Arc<RwLock<OrderBook>>>, futures::channel::mpsc::UnboundedSender<Delivery>, std::pin::Pin<Box<dyn std::future::Future<Output = ()>>>) {
+        let books: Vec<Arc<RwLock<OrderBook>>> = (0..2).map(|_| Arc::new(RwLock::new(OrderBook::default()))).collect();
+        let (tx, fut) = self.manager_on(&books);
+        (books, tx, fut)
+    }
+
+    #[allow(clippy::type_complexity)]
+    fn manager_on(&self, books: &[Arc<RwLock<OrderBook>>]) -> (futures::channel::mpsc::UnboundedSender<Delivery>, std::pin::Pin<Box<dyn std::future::Future<Output = ()>>>) {
+        let (tx, rx) = futures::channel::mpsc::unbounded::<Delivery>();
+        let fut: std::pin::Pin<Box<dyn std::future::Future<Output = ()>>> = if self.single {
+            let manager = OrderBookL2Manager { stream: rx, books: OrderBookMapSingle::new(InstrumentIndex(0), books[0].clone()) };
+            Box::pin(manager.run())
+        } else {
+            let mut map = FnvHashMap::default();
+            map.insert(InstrumentIndex(0), books[0].clone());
+            map.insert(InstrumentIndex(1), books[1].clone());
+            let manager = OrderBookL2Manager { stream: rx, books: OrderBookMapMulti::new(map) };
+            Box::pin(manager.run())
+        };
+        (tx, fut)
+    }
+
+    /// Layer 5: a READER (the purpose of the shared map: "clone the map for viewing the up to date books
+    /// elsewhere") holds book 0 while the manager is handed menu event `ev` for instrument 0. Whatever the
+    /// manager does meanwhile (wait for the reader, as `RwLock::write` does), once the reader is gone the book
+    /// must be the event applied to the previous book: an event of the sequence is never lost.
+    /// Deterministic barrier, no clock: the reader releases the book when the manager's writer is seen waiting
+    /// (`try_read` fails once a writer has announced itself) or when the manager's poll has returned.
+    /// Returns (book afterwards, how the barrier ended: "writer-waited" | "poll-returned-while-held" | "gave-up").
+    fn drive_contended(&self, ev: u8) -> (OrderBook, &'static str) {
+        use std::sync::atomic::{AtomicBool, Ordering::SeqCst};
+        let books: Vec<Arc<RwLock<OrderBook>>> = (0..2).map(|_| Arc::new(RwLock::new(OrderBook::default()))).collect();
+        let (done, released) = (AtomicBool::new(false), AtomicBool::new(false));
+        let guard = books[0].read();
+        let mut barrier = "gave-up";
+        std::thread::scope(|sc| {
+            let worker = sc.spawn(|| {
+                let (tx, mut fut) = self.manager_on(&books);
+                let (flag, waker) = env::flag_waker();
+                let _ = tx.unbounded_send(self.delivery(&MSym::Item { inst: 0, ev }));
+                // poll until quiescent; a manager that keeps re-waking itself while the book is held (retrying)
+                // is polled again and again until the reader has left - it is not a livelock of the subject
+                let mut poll_to_quiescence = || {
+                    let mut cx = std::task::Context::from_waker(&waker);
+                    loop {
+                        flag.0.store(false, SeqCst);
+                        if fut.as_mut().poll(&mut cx).is_ready() || !flag.0.load(SeqCst) {
+                            break;
+                        }
+                        std::thread::yield_now();
+                    }
+                };
+                poll_to_quiescence();
+                done.store(true, SeqCst);
+                while !released.load(SeqCst) {
+                    std::thread::yield_now();
+                }
+                poll_to_quiescence(); // a second chance for a deferring manager
+            });
+            let mut spins = 0u64;
+            loop {
+                if done.load(SeqCst) {
+                    barrier = "poll-returned-while-held";
+                    break;
+                }
+                if books[0].try_read().is_none() {
+                    barrier = "writer-waited";
+                    break;
+                }
+                if spins > 2_000_000 {
+                    break; // gave up (e.g. a manager that retries without blocking): only the final book is judged
+                }
+                spins += 1;
+                std::thread::yield_now();
+            }
+            drop(guard);
+            released.store(true, SeqCst);
+            let _ = worker.join();
+        });
+        let after = books[0].read().clone();
+        (after, barrier)
+    }
+
+    fn contention_check(&self, ev: u8, out: &mut Vec<Viol>) -> (u64, &'static str) {
+        let tag = self.tag();
+        let mut want = OrderBook::default();
+        want.update(self.m.event(&self.menu[ev as usize]));
+        let (after, barrier) = self.drive_contended(ev);
+        if after != want {
+            out.push((
+                format!("C05/{tag}/reader-holds-book/event-not-applied"),
+                format!(
+                    "{} delivered for instrument 0 while a reader held its book (barrier: {barrier}): book afterwards {:?}, the event applied gives {:?}",
+                    self.m.describe(&self.menu[ev as usize]), after, want
+                ),
+            ));
+        }
+        (hash_of(&St(after)), barrier)
+    }
+
+    /// Burst delivery: ALL of `syms` are queued before the manager is polled at all (what happens whenever
+    /// the consumer task is scheduled later than the producers). Returns the books once `run` is quiescent.
+    fn drive_burst(&self, syms: &[MSym]) -> [OrderBook; 2] {
+        let (books, tx, mut fut) = self.manager();
+        let (flag, waker) = env::flag_waker();
+        for s in syms {
+            let _ = tx.unbounded_send(self.delivery(s));
+        }
+        let _ = env::poll_quiesce(fut.as_mut(), &flag, &waker);
+        [books[0].read().clone(), books[1].read().clone()]
     }
 
     /// Deliver `syms` one by one to a fresh real manager; returns the two configured books after the
     /// last delivery and whether `run` was still pending (it must only end when the stream ends).
     fn drive(&self, syms: &[MSym]) -> ([OrderBook; 2], bool, bool) {
-        let books: Vec<Arc<RwLock<OrderBook>>> = (0..2).map(|_| Arc::new(RwLock::new(OrderBook::default()))).collect();
-        let mut map = FnvHashMap::default();
-        map.insert(InstrumentIndex(0), books[0].clone());
-        map.insert(InstrumentIndex(1), books[1].clone());
-        let (tx, rx) = futures::channel::mpsc::unbounded::<MarketStreamEvent<InstrumentIndex, OrderBookEvent>>();
-        let manager = OrderBookL2Manager { stream: rx, books: OrderBookMapMulti::new(map) };
-        let mut fut = Box::pin(manager.run());
+        let (books, tx, mut fut) = self.manager();
         let (flag, waker) = env::flag_waker();
         let mut pending = true;
         for s in syms {
-            let ev = match s {
-                MSym::Reconnecting => Event::Reconnecting(ExchangeId::BinanceSpot),
-                MSym::Item { inst, ev } => Event::Item(MarketEvent {
-                    time_exchange: Utc.timestamp_opt(1_700_000_000, 0).unwrap(),
-                    time_received: Utc.timestamp_opt(1_700_000_000, 0).unwrap(),
-                    exchange: ExchangeId::BinanceSpot,
-                    instrument: InstrumentIndex(*inst as usize),
-                    kind: self.m.event(&self.menu[*ev as usize]),
-                }),
-            };
+            let ev = self.delivery(s);
             if !pending {
                 return (Default::default(), false, false); // `run` had returned before this delivery (judged on the step where it did)
             }
@@ -694,15 +874,16 @@ impl SeqModel for MgrModel {
     }
 
     fn step(&self, s: &mut Self::State, sym: &MSym, hist: &[MSym], out: &mut Vec<Viol>) {
+        let tag = self.tag();
         if let MSym::Item { inst, ev } = sym {
-            if (*inst as usize) < 2 {
+            if (*inst as usize) < self.configured() {
                 s[*inst as usize].update(self.m.event(&self.menu[*ev as usize]));
             }
         }
         let mut all: Vec<MSym> = hist.to_vec();
         all.push(*sym);
         let Ok((books, pending, _ended)) = std::panic::catch_unwind(std::panic::AssertUnwindSafe(|| self.drive(&all))) else {
-            out.push(("C05/manager/panic".to_string(), format!("manager or book panicked on delivery {all:?}")));
+            out.push((format!("C05/{tag}/panic"), format!("manager or book panicked on delivery {all:?}")));
             return;
         };
         if !pending && !_ended {
@@ -710,14 +891,14 @@ impl SeqModel for MgrModel {
         }
         let what = match sym {
             MSym::Reconnecting => "reconnecting-notice".to_string(),
-            MSym::Item { inst, .. } if *inst >= 2 => "event-for-unconfigured-instrument".to_string(),
+            MSym::Item { inst, .. } if *inst as usize >= self.configured() => "event-for-unconfigured-instrument".to_string(),
             MSym::Item { .. } => "event-for-configured-instrument".to_string(),
         };
         for i in 0..2usize {
             if books[i] != s[i] {
                 let own = matches!(sym, MSym::Item { inst, .. } if *inst as usize == i);
                 out.push((
-                    format!("C05/manager/{what}/{}", if own { "own-book-not-updated-with-the-event" } else { "other-book-changed" }),
+                    format!("C05/{tag}/{what}/{}", if own { "own-book-not-updated-with-the-event" } else { "other-book-changed" }),
                     format!("delivery {all:?}: book of instrument {i} is {:?}, its own events applied directly give {:?}", books[i], s[i]),
                 ));
                 s[i] = books[i].clone(); // re-synchronise: report a routing error once, on the step that causes it
@@ -725,7 +906,26 @@ impl SeqModel for MgrModel {
         }
         if !pending {
             // termination on stream END is not judged; ending while the stream is open loses every later event
-            out.push((format!("C05/manager/{what}/run-ended-while-stream-open"), format!("delivery {all:?}")));
+            out.push((format!("C05/{tag}/{what}/run-ended-while-stream-open"), format!("delivery {all:?}")));
+        }
+        // Burst: the same deliveries all queued before the manager runs. "After any sequence of snapshots
+        // and incremental updates" the books are the fold of EVERY event, however the deliveries were
+        // batched by the scheduler. Judged only when one-by-one delivery was right (no echo of a defect
+        // reported above).
+        if out.is_empty() && all.len() >= 2 {
+            match std::panic::catch_unwind(std::panic::AssertUnwindSafe(|| self.drive_burst(&all))) {
+                Err(_) => out.push((format!("C05/{tag}/burst-delivery/panic"), format!("manager or book panicked on {all:?} queued at once"))),
+                Ok(burst) => {
+                    for i in 0..2usize {
+                        if burst[i] != s[i] {
+                            out.push((
+                                format!("C05/{tag}/burst-delivery/book-differs-from-its-events-applied-in-order"),
+                                format!("deliveries {all:?} queued before the manager was polled: book of instrument {i} is {:?}, its own events applied one by one give {:?}", burst[i], s[i]),
+                            ));
+                        }
+                    }
+                }
+            }
         }
     }
 
@@ -809,8 +1009,12 @@ fn long_check(c: &LongCase, out: &mut Vec<Viol>) -> u64 {
     };
     let mut v = Vec::new();
     check_book("update", "", &book, wb, wa, 2, &|| String::new(), &mut v);
-    // keep one rule: the level lists (the derived observers would only repeat it)
+    // keep the level lists and the depth-limited snapshots of the long book (depths up to and beyond its
+    // length); sequence / mid prices of a long book add nothing to layer 1
+    v.retain(|(s, _)| s.starts_with("C05/levels/") || s.starts_with("C05/snapshot-depth/"));
+    let snap_viols: Vec<Viol> = v.iter().filter(|(s, _)| s.starts_with("C05/snapshot-depth/")).map(|(s, d)| (format!("{s}/long-book"), format!("book of {} {} levels{}", want.len(), if c.asks { "ask" } else { "bid" }, d.chars().take(300).collect::<String>()))).collect();
     v.retain(|(s, _)| s.starts_with("C05/levels/"));
+    out.extend(snap_viols);
     if !v.is_empty() {
         // abstract cause: is the book what the map would hold had the two entries been applied in the
         // opposite order (the sort inside OrderBook::new does not keep equal prices in list order)?
@@ -854,6 +1058,65 @@ fn long_cases(ns: &[usize]) -> Vec<LongCase> {
 }
 
 // ------------------------------------------------------------------------------------------------
+// Layer 4: BIG books. For EVERY length n up to the bound and each side: a snapshot of n levels (listed
+// worst-first), then one update that inserts behind the worst level, inserts in front of the best,
+// replaces the middle level, deletes the best of the snapshot and deletes an absent price. The map has
+// no notion of a maximum depth; a venue's depth (1000 / 5000 levels) is not the book's.
+// ------------------------------------------------------------------------------------------------
+
+#[derive(Clone, Debug, Serialize, Deserialize)]
+pub struct BigCase {
+    pub asks: bool,
+    pub n: usize,
+}
+
+fn big_check(c: &BigCase, out: &mut Vec<Viol>) -> u64 {
+    let n = c.n as i64;
+    // prices 1..=n; "better" = lower for asks, higher for bids. listed worst-first (unsorted for the book)
+    let mut snap: Vec<Level> = (1..=n).map(|p| Level::new(Decimal::from(p), d("1"))).collect();
+    if c.asks {
+        snap.reverse();
+    }
+    let (best, worst_next, front) = if c.asks { (1, n + 1, d("0.5")) } else { (n, 0, Decimal::from(n) + d("0.5")) };
+    let mut upd = vec![
+        Level::new(if c.asks { Decimal::from(worst_next) } else { d("0.25") }, d("2")), // behind the worst level
+        Level::new(front, d("3")),                                                    // in front of the best
+        Level::new(Decimal::from((n + 1) / 2), d("9")),                               // replace the middle level
+        Level::new(Decimal::from(n + 7), d("0")),                                     // delete an absent price
+    ];
+    if n >= 3 {
+        upd.push(Level::new(Decimal::from(best), d("0"))); // delete the snapshot's best level
+    }
+    let _ = worst_next;
+    let mut want = to_map(&snap);
+    let empty = PMap::new();
+    let mut book = OrderBook::default();
+    let sides = |l: Vec<Level>| if c.asks { (Vec::new(), l) } else { (l, Vec::new()) };
+    for (step, (kind, seq, levels)) in [("snapshot", 1u64, snap.clone()), ("update", 2u64, upd.clone())].into_iter().enumerate() {
+        let (b, a) = sides(levels.clone());
+        let ev = OrderBook::new(seq, None, b, a);
+        if step == 0 {
+            book.update(OrderBookEvent::Snapshot(ev));
+        } else {
+            apply_update(&mut want, &levels);
+            book.update(OrderBookEvent::Update(ev));
+        }
+        let (wb, wa) = if c.asks { (&empty, &want) } else { (&want, &empty) };
+        let mut v = Vec::new();
+        check_book(kind, "", &book, wb, wa, seq, &|| String::new(), &mut v);
+        let got_len = if c.asks { book.asks().levels().len() } else { book.bids().levels().len() };
+        for (sig, detail) in v {
+            out.push((
+                format!("{sig}/big-book"),
+                format!("{} side, {kind} on a book of {} levels: book holds {got_len} levels, the map {}{}", if c.asks { "ask" } else { "bid" }, c.n, want.len(), detail.chars().take(200).collect::<String>()),
+            ));
+        }
+        if !out.is_empty() {
+            break;
+        }
+    }
+    hash_of(&St(book))
+}
 
 static PANICS: std::sync::atomic::AtomicU64 = std::sync::atomic::AtomicU64::new(0);
 
@@ -867,7 +1130,7 @@ pub fn run(ctx: &Ctx) -> Outcome {
     let mut per_model = Vec::new();
     let (mut states, mut transitions, mut max_depth, mut distinct_impl) = (0usize, 0u64, 0usize, 0usize);
     let mut samples = Vec::new();
-    let labels: Vec<&str> = ctx.tier.pick(vec!["p3", "scales"], vec!["p3", "scales", "p4"]);
+    let labels: Vec<&str> = ctx.tier.pick(vec!["p3", "scales", "cross", "fine"], vec!["p3", "scales", "cross", "fine", "p4"]);
     for label in &labels {
         let m = M::by_label(label);
         let t = std::time::Instant::now();
@@ -895,6 +1158,26 @@ pub fn run(ctx: &Ctx) -> Outcome {
     let t = std::time::Instant::now();
     let ms = seq::run(ctx, &mgr, "manager", mgr_len);
     eprintln!("C05 manager: {} sequences {:.1}s", ms.sequences, t.elapsed().as_secs_f64());
+    let mgr1 = MgrModel::with_map(true);
+    let t = std::time::Instant::now();
+    let ms1 = seq::run(ctx, &mgr1, "manager-single", mgr_len);
+    eprintln!("C05 manager-single: {} sequences {:.1}s", ms1.sequences, t.elapsed().as_secs_f64());
+    // layer 5: reader contention (menu events 0, 2, 3 change an empty book)
+    let mut contention_cases = 0u64;
+    let mut barriers: BTreeMap<&'static str, u64> = BTreeMap::new();
+    for (model, single) in [(&mgr, false), (&mgr1, true)] {
+        for ev in 0..model.menu.len() as u8 {
+            let mut out = Vec::new();
+            match std::panic::catch_unwind(std::panic::AssertUnwindSafe(|| model.contention_check(ev, &mut out))) {
+                Ok((_, barrier)) => *barriers.entry(barrier).or_insert(0) += 1,
+                Err(_) => out.push((format!("C05/{}/reader-holds-book/panic", model.tag()), format!("panic on menu event {ev}"))),
+            }
+            contention_cases += 1;
+            for (sig, detail) in out {
+                ctx.violate(sig, detail, json!({"engine": "reader-contention", "single": single, "ev": ev}));
+            }
+        }
+    }
     // layer 3
     let ns: Vec<usize> = ctx.tier.pick((2..=40).collect(), (2..=48).chain([64, 65, 100]).collect());
     let cases = long_cases(&ns);
@@ -913,6 +1196,22 @@ pub fn run(ctx: &Ctx) -> Outcome {
             ctx.violate(sig, detail, json!({"engine": "long-update", "case": c}));
         }
     });
+    // layer 4
+    let big_max: usize = ctx.tier.pick(1100, 5200);
+    let big_cases: Vec<BigCase> = [false, true].into_iter().flat_map(|asks| (1..=big_max).map(move |n| BigCase { asks, n })).collect();
+    let big_distinct = Distinct::default();
+    let t = std::time::Instant::now();
+    big_cases.par_iter().for_each(|c| {
+        let mut out = Vec::new();
+        match std::panic::catch_unwind(std::panic::AssertUnwindSafe(|| big_check(c, &mut out))) {
+            Ok(h) => big_distinct.add_hash(h),
+            Err(_) => out.push(("C05/panic/big-book".to_string(), format!("panic on {c:?}"))),
+        }
+        for (sig, detail) in out {
+            ctx.violate(sig, detail, json!({"engine": "big-book", "case": c}));
+        }
+    });
+    eprintln!("C05 big books: {} cases {:.1}s", big_cases.len(), t.elapsed().as_secs_f64());
     let long_fail: Vec<Value> = long_fail.into_inner().unwrap().into_iter().map(|(n, k)| json!({"levels": n, "failing_cases": k})).collect();
     Outcome {
         level: "model_checking",
@@ -927,9 +1226,15 @@ pub fn run(ctx: &Ctx) -> Outcome {
             "per_model": per_model,
             "samples": samples,
             "manager_layer": {"max_len": mgr_len, "sequences": ms.sequences, "steps": ms.steps, "distinct_final": ms.distinct_final,
-                              "alphabet": "Reconnecting + 5 events x {instrument 0, instrument 1, unconfigured key}"},
+                              "alphabet": "Reconnecting + 5 events x {instrument 0, instrument 1, unconfigured key}",
+                              "delivery": "one by one (books judged after every delivery) and, for every sequence of >= 2, all queued before the manager is polled"},
+            "manager_single_layer": {"max_len": mgr_len, "sequences": ms1.sequences, "steps": ms1.steps, "distinct_final": ms1.distinct_final,
+                              "alphabet": "OrderBookMapSingle(instrument 0): Reconnecting + 5 events x {instrument 0, two unconfigured keys}; same two delivery modes"},
             "long_update_layer": {"evaluations": cases.len(), "distinct_final_books": long_distinct.len(), "lengths": ns, "lengths_with_failures": long_fail},
-            "rule": "BFS to fixpoint; state = the real OrderBook; every transition = OrderBook::update of one Snapshot/Update event built by OrderBook::new from an unsorted level list; compared with BTreeMap<price,amount> per side (levels+order, sequence, mid, vw-mid, snapshot(0..=5))",
+            "reader_contention_layer": {"evaluations": contention_cases, "barrier_outcomes": barriers, "rule": "a reader holds the instrument's book while the manager is handed an event for it; once the reader has left the book is the event applied"},
+            "big_book_layer": {"evaluations": big_cases.len(), "distinct_final_books": big_distinct.len(), "lengths": format!("every n in 1..={big_max}, both sides"),
+                               "events": "snapshot of n levels listed worst-first, then one update: insert behind the worst, insert in front of the best, replace the middle, delete the best, delete an absent price"},
+            "rule": "BFS to fixpoint; state = the real OrderBook; every transition = OrderBook::update of one Snapshot/Update event built by OrderBook::new from an unsorted level list; compared with BTreeMap<price,amount> per side (levels+order, sequence, mid, vw-mid, snapshot(d) for d in 0..=5, around the book length and usize::MAX)",
         }),
         assumptions: vec![
             "snapshots are well-formed (distinct prices, positive amounts); duplicates and zero amounts only inside updates".into(),
@@ -937,6 +1242,9 @@ pub fn run(ctx: &Ctx) -> Outcome {
             "one-sided book: mid / volume-weighted mid may be None or the only best price (the statement does not define it); volume weighting: either convention accepted".into(),
             "time_engine is not judged (not mentioned by the statement)".into(),
             "events are built with OrderBook::new as every connector does; value alphabets avoid Decimal overflow".into(),
+            "bids and asks are independent maps: a crossed book (bid >= ask) keeps every level of both sides".into(),
+            "the manager applies every delivered event in delivery order whatever the envelope's exchange / receive timestamps (they go up and down along a sequence)".into(),
+            "the manager's books are the fold of every delivered event whether deliveries are consumed one by one or found queued together, and whether or not a reader holds the book at that moment (judged once the reader has left)".into(),
         ],
     }
 }
@@ -944,11 +1252,29 @@ pub fn run(ctx: &Ctx) -> Outcome {
 pub fn replay(ctx: &Ctx, case: &Value) {
     let viols = match case["engine"].as_str().unwrap_or("bfs") {
         "bfs" => bfs::replay(&M::by_label(case["label"].as_str().unwrap_or("p3")), case),
-        "seq" => seq::replay(&MgrModel::new(), case),
+        "seq" => seq::replay(&MgrModel::with_map(case["label"].as_str() == Some("manager-single")), case),
         "long-update" => {
             let c: LongCase = serde_json::from_value(case["case"].clone()).expect("replay: bad long-update case");
             let mut out = Vec::new();
             long_check(&c, &mut out);
+            for (s, d) in &out {
+                println!("    {s}: {d}");
+            }
+            out
+        }
+        "reader-contention" => {
+            let model = MgrModel::with_map(case["single"].as_bool().unwrap_or(false));
+            let mut out = Vec::new();
+            let _ = model.contention_check(case["ev"].as_u64().unwrap_or(0) as u8, &mut out);
+            for (s, d) in &out {
+                println!("    {s}: {d}");
+            }
+            out
+        }
+        "big-book" => {
+            let c: BigCase = serde_json::from_value(case["case"].clone()).expect("replay: bad big-book case");
+            let mut out = Vec::new();
+            big_check(&c, &mut out);
             for (s, d) in &out {
                 println!("    {s}: {d}");
             }
